@@ -352,9 +352,11 @@ func toSMTPErr(err error) *smtp.SMTPError {
 	if ok {
 		res.Code = ctxCode
 	}
-	ctxEnchCode, ok := ctxInfo["smtp_enchcode"].(smtp.EnhancedCode)
-	if ok {
-		res.EnhancedCode = ctxEnchCode
+	// SMTPError.Fields stores exterrors.EnhancedCode. Keep the X.0.0 default if
+	// the error carries no enhanced code, Status field of DSN cannot be empty.
+	ctxEnchCode, ok := ctxInfo["smtp_enchcode"].(exterrors.EnhancedCode)
+	if ok && smtp.EnhancedCode(ctxEnchCode) != smtp.EnhancedCodeNotSet {
+		res.EnhancedCode = smtp.EnhancedCode(ctxEnchCode)
 	}
 	ctxMsg, ok := ctxInfo["smtp_msg"].(string)
 	if ok {
